@@ -420,7 +420,11 @@ func (w *c09World) checkResponse(st *c09Stream, r *c09Req, resp *pb.Message, bod
 			// addresses survived a trim); they go to the run summary
 			s.Summary["too_large"] = fmt.Sprintf("%v body=%d closer-bytes=%d limit=%d", typ, bodyLen, closerBytes, network.MessageSizeMax)
 			if closerBytes > network.MessageSizeMax {
-				s.Violate("closer-peers-exceed-transport-limit", "%v response on %s exceeds the transport limit of %d bytes: its %d closer-peer records alone do (K=%d; every single record is within 8 KiB)", typ, st.name(), network.MessageSizeMax, len(resp.GetCloserPeers()), w.K)
+				first := ""
+				if cp := resp.GetCloserPeers(); typ == pb.Message_FIND_NODE && len(cp) > 0 && bytes.Equal(cp[0].GetId(), req.GetKey()) {
+					first = fmt.Sprintf("; the first is the requested peer %s, table member=%v", w.u.Name(peer.ID(req.GetKey())), w.rtSet[peer.ID(req.GetKey())])
+				}
+				s.Violate("closer-peers-exceed-transport-limit", "%v response on %s exceeds the transport limit of %d bytes: its %d closer-peer records alone do (K=%d; every single record is within 8 KiB%s)", typ, st.name(), network.MessageSizeMax, len(resp.GetCloserPeers()), w.K, first)
 				return
 			}
 			s.Violate("response-too-large", "%v response on %s exceeds the transport limit of %d bytes (%d closer, %d provider records)", typ, st.name(), network.MessageSizeMax, len(resp.GetCloserPeers()), len(resp.GetProviderPeers()))
@@ -548,6 +552,14 @@ func (w *c09World) checkCloser(st *c09Stream, r *c09Req, resp *pb.Message, bodyL
 		same = true
 		cands = cands[:len(got)]
 		s.Count("probe_closer_cut_by_transport_limit")
+		if isFN && targetListed && len(got) < len(ids) {
+			// the requested peer's record came on top of a list that had to be cut:
+			// the transport limit (rule response-too-large) covers both together
+			s.Count("probe_cut_list_plus_target")
+			if proto.Size(resp.GetCloserPeers()[0]) > c09MaxPeerRecord/2 {
+				s.Count("probe_cut_list_plus_big_target")
+			}
+		}
 	}
 	for i := 0; same && i < len(got); i++ {
 		same = got[i] == cands[i]
